@@ -569,6 +569,7 @@ class SimNet:
     def __init__(self, sim):
         self.sim = sim
         self.listeners = {}       # (host, port) or path -> SimServer
+        self.orphaned = []        # UNIX listeners whose path was re-bound
         self.transports = []
         self.open_transports = 0
         self.connections = []
@@ -732,7 +733,14 @@ class SimNet:
         return server
 
     async def listen_unix(self, protocol_factory, path):
-        self.check_bind_unix(path)
+        # asyncio's create_unix_server() removes an existing socket file and
+        # binds anew: a listener already on that path stays open, but
+        # nobody can reach it any more
+        old = self.listeners.get(path)
+
+        if old is not None:
+            self.orphaned.append(old)
+
         sock = FakeSocket(socket.AF_UNIX, net=self, sockname=path)
         server = SimServer(self, protocol_factory, [path], [sock])
         self.listeners[path] = server
